@@ -16,7 +16,7 @@ Here is a semantic property of the project that is supposed to hold:
   Quantified over: {p['quantifier']['text']}
   Code it is anchored in: {', '.join(p['anchors']['files'])}
 
-Your task: make ONE realistic change to the project's non-test source code that BREAKS this property while (1) the project still compiles and (2) the existing test suite still passes unchanged (run it to be sure). The change should look like a plausible slip or 'optimisation' a developer could make in this code (an off-by-one, a swapped operand, a dropped case, a cache or shortcut that is wrong in a corner, two sites that each look fine alone), NOT sabotage and not something ordinary use would expose at once: it should need something specific to manifest (an unusual input, a particular combination or sequence of operations, a boundary value, a particular interleaving). Do not edit tests, build files or dependencies.
+Your task: make ONE realistic change to the project's non-test source code that BREAKS this property while (1) the project still compiles and (2) the existing test suite still passes unchanged (run it to be sure). The change should look like a plausible slip or 'optimisation' a developer could make in this code (an off-by-one, a swapped operand, a dropped case, a cache or shortcut that is wrong in a corner, two sites that each look fine alone), NOT sabotage and not something ordinary use would expose at once: it should need something specific to manifest (an unusual input, a particular combination or sequence of operations, a boundary value, a particular interleaving). Do not edit tests, build files or dependencies. Do NOT use `git stash` (the stash is shared with other worktrees of this repository and other people use it concurrently); use `git diff > file` and `git apply [-R] file` instead.
 
 Also write a demonstration: a new Rust unit test (added by a separate patch, e.g. a `#[test]` inside a `#[cfg(test)] mod` of the relevant file, or a file under src/.../tests) that FAILS with your change and PASSES without it. Verify both directions yourself.
 
